@@ -43,6 +43,10 @@ func init() {
 			obRunChildren(c, "C03.3")
 			obErrNotDropped(c, "C03.4a")
 			obErrImpliesZero(c, "C03.4b")
+			obEvalReadOnly(c, "C03.6")
+			ob7 := c.R.Ob("C03.7", "ctrl/clamp-self", "an amount is clamped to zero only under a sign test of that very amount (no spurious 'gives nothing')", 2)
+			c.ClampTestsItself(ob7, relInterp)
+			obSign(c, "C03.8")
 			ob5 := c.R.Ob("C03.5", "ctrl/negative", "only strictly negative amounts are rejected: a send of 0 goes through", 2)
 			c.NegativeTestStrict(ob5, "NegativeAmountErr")
 		},
@@ -60,7 +64,10 @@ func init() {
 			obBalanceOrigin(c, "C04.5a", r)
 			obGate(c, "C04.5b", r)
 			obPending(c, "C04.5c", r)
+			obPendingScan(c, "C04.5d", r)
 			obSign(c, "C04.6")
+			ob7 := c.R.Ob("C04.7", "ctrl/clamp-self", "an amount is clamped to zero only under a sign test of that very amount", 2)
+			c.ClampTestsItself(ob7, relInterp)
 		},
 	}
 	Registry["C05"] = &Spec{
@@ -74,6 +81,8 @@ func init() {
 			obSign(c, "C05.2")
 			ob0 := c.R.Ob("C05.0", "roles", "the interpreter's money roles are found in the code", 0)
 			r := c.Roles(ob0)
+			obEvalReadOnly(c, "C05.5")
+			obPushBack(c, "C05.6", r)
 			ob4 := c.R.Ob("C05.4", "ctrl/kept", "kept targets, and only they, are queued under the kept marker", 2)
 			c.KeptOnlyForKept(ob4, r, keptMarker(c))
 		},
@@ -106,6 +115,7 @@ func init() {
 			ob2 := c.R.Ob("C07.2", "origin/posting", "postings are built from the popped pair; merged only when both names agree; the kept marker never reaches a posting", 4)
 			c.PostingShape(ob2, r, keptMarker(c))
 			c.ReconcilerShape(ob2, r)
+			obPushBack(c, "C07.3", r)
 		},
 	}
 	Registry["C09"] = &Spec{
@@ -131,6 +141,7 @@ func init() {
 			run := c.Fn(ob4, relInterp, "RunProgram")
 			c.CallOrder(ob4, "order:RunProgram:statements-after-fetch", run, sameFn(fetch), sameFn(disp), "statements run only after the balances were fetched")
 			obCacheMergeOnly(c, "C09.4b")
+			obBatchAlways(c, "C09.4c")
 			obSaveMonotone(c, "C09.5", r)
 		},
 	}
